@@ -20,6 +20,11 @@ type ImplLib struct {
 	dir  string
 	path string
 	db   *wt.Whisper
+	// hostile-file stream: an update that fails half-way on a damaged file may leave some of
+	// its writes in the buffer (the model returns the handle unchanged); what the buffer
+	// holds after that is not specified by any property, so content observations are
+	// reported as "tainted" on both sides until the handle is replaced
+	taintMode, tainted bool
 }
 
 func NewImplLib() *ImplLib {
@@ -194,7 +199,34 @@ func canonHash(hdr int, b []byte) string {
 }
 
 // Exec runs one operation line on the real code and returns its observation.
-func (m *ImplLib) Exec(line string) (obs string) {
+func (m *ImplLib) Exec(line string) string {
+	tk := strings.Fields(line)
+	if len(tk) == 0 {
+		return "bad-op"
+	}
+	if tk[0] == "taintmode" {
+		m.taintMode = true
+		return "ok"
+	}
+	obs := m.exec1(line)
+	switch tk[0] {
+	case "reset":
+		m.taintMode, m.tainted = false, false
+	case "resetfile", "use", "create", "open", "setdisk", "rmdisk", "drop":
+		m.tainted = false
+	case "upd", "updmany":
+		if m.taintMode && obs != "ok" && obs != "nohandle" && !strings.HasPrefix(obs, "panic") {
+			m.tainted = true
+		}
+	case "fetch", "raw", "view":
+		if m.tainted && !strings.HasPrefix(obs, "panic") {
+			return "tainted"
+		}
+	}
+	return obs
+}
+
+func (m *ImplLib) exec1(line string) (obs string) {
 	defer func() {
 		if r := recover(); r != nil {
 			obs = "panic"
